@@ -664,13 +664,17 @@ pub fn spaces_explicit_empty(ctx: &Ctx, base: &BaseTables) {
 // ---------------------------------------------------------------------------
 
 /// (start, end, start glyph) groups of the hand-encoded format-12 subtable
-const CMAP12_GROUPS: [(u32, u32, u32); 7] = [
+const CMAP12_GROUPS: [(u32, u32, u32); 11] = [
     (0x0, 0x0, 1),
+    (0x20, 0x20, 0), // -> glyph 0 before most real mappings
     (0x41, 0x42, 1),
+    (0x43, 0x43, 0), // 'C' -> glyph 0 between
+    (0x50, 0x52, 0), // a group that starts at glyph 0 and continues with glyphs 1, 2
     (0xFFFF, 0xFFFF, 3),
     (0x1_0000, 0x1_0001, 4),
     (0x2_0000, 0x2_0001, 1),
     (0x2_0002, 0x2_0002, 1), // adjacent to the previous group
+    (0x3_0000, 0x3_0000, 0),
     (0x10_FFFE, 0x10_FFFF, 4),
 ];
 
@@ -693,7 +697,9 @@ pub fn base_tables_cmap12() -> BaseTables {
         w.u32(e);
         w.u32(g);
         for c in s..=e {
-            map.insert(c, g + (c - s));
+            if g + (c - s) != 0 {
+                map.insert(c, g + (c - s));
+            }
         }
     }
     for t in b.tables.iter_mut() {
@@ -708,7 +714,8 @@ pub fn base_tables_cmap12() -> BaseTables {
 pub fn spaces_f1_cmap12(ctx: &Ctx, _base: &BaseTables) {
     let base = base_tables_cmap12();
     let thorough = ctx.run.tier == Tier::Thorough;
-    let specials: Vec<u32> = vec![0x0, 0xFFFF, 0x1_0000, 0x1_0001, 0x2_0000, 0x2_0001, 0x2_0002, 0x10_FFFE, 0x10_FFFF];
+    // the last five are mapped to glyph 0 (0x20, 'C', 0x50, 0x30000) or follow such a pair inside a group (0x51)
+    let specials: Vec<u32> = vec![0x0, 0xFFFF, 0x1_0000, 0x1_0001, 0x2_0000, 0x2_0001, 0x2_0002, 0x10_FFFE, 0x10_FFFF, 0x20, 0x43, 0x50, 0x51, 0x3_0000];
     let mapped: Vec<u32> = base.cmap.keys().copied().collect();
     let mut cps: Vec<DCps> = vec![DCps::Set(vec![]), DCps::AllExcept(vec![]), DCps::AllExcept(vec![A]), DCps::Set(specials.clone())];
     for c in &specials {
@@ -850,4 +857,23 @@ pub fn spaces_f1_width_boundary(ctx: &Ctx, base: &BaseTables) {
         }
         ctx.merge(l);
     });
+}
+
+/// Both fixture cmaps must really contain code point -> glyph 0 pairs (read back from the raw subtables).
+pub fn fixtures_hold_notdef_pairs(base: &BaseTables) -> Result<(), String> {
+    use read_fonts::tables::cmap::Cmap;
+    use read_fonts::FontRead;
+    for (name, b, cps) in [
+        ("format 4", base.tables.clone(), vec![NOTDEF_BEFORE, NOTDEF_BETWEEN, NOTDEF_AFTER]),
+        ("format 12", base_tables_cmap12().tables, vec![0x20u32, 0x43, 0x50, 0x3_0000]),
+    ] {
+        let data = &b.iter().find(|t| t.0 == Tag::new(b"cmap")).ok_or("no cmap")?.1;
+        let cmap = Cmap::read(read_fonts::FontData::new(data)).map_err(|e| format!("{name}: {e}"))?;
+        for cp in cps {
+            if cmap.map_codepoint(cp).map(|g| g.to_u32()) != Some(0) {
+                return Err(format!("{name}: U+{cp:04X} is not mapped to glyph 0 in the raw subtable"));
+            }
+        }
+    }
+    Ok(())
 }
